@@ -209,7 +209,7 @@ theorem fr_rqMove (s : BSt) (i : Nat) (st : Stmt) (rest : List Stmt) (hq : (s.th
 theorem fr_readQueue (hq : Quiet inj) (tsNow : Option Nat) (i : Nat) (fuel : Nat) :
     ∀ (total : Nat) (s : BSt), Fr s (Backend.readQueue inj tsNow i fuel total s) := by
   induction fuel with
-  | zero => intro total s; exact Fr.refl _
+  | zero => intro total s; rw [readQueue_zero]; exact fr_rqFin s i total
   | succ n ih =>
     intro total s
     rw [readQueue_succ]
